@@ -33,6 +33,8 @@ SCRIPTS = {
     "lcd": (HEAD + "from Reduino.Displays import LCD\nlcd = LCD(rs=12, en=11, d4=5, d5=4, d6=3, d7=2)\nlcd.line(0, \"hi\")\n", ["LiquidCrystal"]),
     "lcdi2c": (HEAD + "from Reduino.Displays import LCD\npanel = LCD(i2c_addr=39)\npanel.line(0, \"yo\")\n", ["LiquidCrystal_I2C"]),
     "all": (HEAD + "from Reduino.Actuators import Servo\nfrom Reduino.Displays import LCD\nsv = Servo(9)\nlcd = LCD(rs=12, en=11, d4=5, d5=4, d6=3, d7=2)\npanel = LCD(i2c_addr=39)\n", ["Servo", "LiquidCrystal", "LiquidCrystal_I2C"]),
+    "servo_in_loop": (HEAD + "from Reduino.Actuators import Servo\nwhile True:\n    arm = Servo(9)\n    arm.write(90)\n", ["Servo"]),
+    "servo_in_loop_lcd_top": (HEAD + "from Reduino.Actuators import Servo\nfrom Reduino.Displays import LCD\npanel = LCD(i2c_addr=39)\nwhile True:\n    arm = Servo(9)\n    arm.write(90)\n    panel.line(0, \"x\")\n", ["Servo", "LiquidCrystal_I2C"]),
     "rejected": (HEAD + "from Reduino.Actuators import Led\nled = Led(13)\nwhile True:\n    break\n", None),
 }
 PAIRS = {
